@@ -199,3 +199,7 @@ func VerifArrayStorables(a *Array) ([]Storable, error) {
 		slab = ds
 	}
 }
+
+// VerifPutDigester returns a digester obtained from a DigesterBuilder to the library's pool,
+// exactly as the library does after its last use (putDigester).
+func VerifPutDigester(d Digester) { putDigester(d) }
